@@ -44,8 +44,8 @@ def jobs(pid, tier, seed, bins, Job, mix, miri_env):
         for i in range(reps):
             variant = "release" if i % 2 else "debug"
             fp = [0, 20, 60][i % 3] if not quick else [0, 30, 0][i % 3]
-            rounds = 2500 if quick else 120_000
-            argv = [bins[variant], "mt", "--prop", str(n), "--seed", str(mix(seed, pid, "mt", i)), "--rounds", str(rounds), "--failpoints", str(fp), "--budget-ms", str(25_000 if quick else 600_000)]
+            rounds = (6000 if pid in ("C12", "C14") else 2500) if quick else 120_000
+            argv = [bins[variant], "mt", "--prop", str(n), "--seed", str(mix(seed, pid, "mt", i)), "--rounds", str(rounds), "--failpoints", str(fp), "--budget-ms", str((40_000 if pid in ("C12", "C14") else 25_000) if quick else 600_000)]
             out.append(Job(f"mt/{variant}/fp{fp}/{i}", argv, timeout=200 if quick else 1500, tool="mt-native"))
     if pid == "C01":
         # hardware store-to-load reordering: tight loop with uninstrumented children, release build
